@@ -3,6 +3,7 @@ package props
 import (
 	"encoding/json"
 	"fmt"
+	"math"
 	"strings"
 	"time"
 
@@ -324,7 +325,7 @@ func runC16(c *explore.Ctx) {
 	}
 
 	// limit 0 and a limit above the token count behave like the unlimited entry point, at every size
-	s1 := c.Sub("families-unlimited", fmt.Sprintf("%d size families × n = 2^k up to 64 KiB, through the limited entry points with limit 0 and with limit 2³⁰", len(gen.ParseFamilies)),
+	s1 := c.Sub("families-unlimited", fmt.Sprintf("%d size families × n = 2^k up to 64 KiB, through the limited entry points with limit 0 and with limits 2³⁰, 2³¹, 2³²−1, 2³², 2³²+1, 2⁴⁰+3 and the largest int", len(gen.ParseFamilies)),
 		"the limited entry point with limit 0 (unlimited) or a limit above the token count succeeds exactly when the unlimited entry point does", "every case")
 	if s1 != nil {
 		t0 := time.Now()
@@ -347,7 +348,7 @@ func runC16(c *explore.Ctx) {
 					if ur.Panicked {
 						continue
 					}
-					for _, limit := range []int{0, 1 << 30} {
+					for _, limit := range []int{0, 1 << 30, 1 << 31, 1<<32 - 1, 1 << 32, 1<<32 + 1, 1<<40 + 3, math.MaxInt} {
 						s1.Executions++
 						s1.Transitions++
 						_, err, r := c16Parse(text, sdl, limit, false)
